@@ -213,3 +213,55 @@ Definition carry_len (t s : list N) : option nat :=
 
 Definition trest_of (t : list N) (k : option nat) : option (list N) :=
   option_map (fun k => skipn k t) k.
+
+(* ---------------------------------------------------------------- list helpers *)
+
+Lemma slice_0 {A} (s : list A) j : slice s 0 j = firstn j s.
+Proof. unfold slice. now rewrite Nat.sub_0_r. Qed.
+
+Lemma slice_skipn {A} (s : list A) i j : slice s i j = firstn (j - i) (skipn i s).
+Proof. reflexivity. Qed.
+
+Lemma nth_error_skipn {A} (s : list A) i d : nth_error (skipn i s) d = nth_error s (i + d).
+Proof.
+  revert s; induction i as [|i IH]; intros s; simpl; [reflexivity|].
+  destruct s; simpl; [now destruct d | apply IH].
+Qed.
+
+Lemma nth_error_firstn {A} (s : list A) k d :
+  nth_error (firstn k s) d = if d <? k then nth_error s d else None.
+Proof.
+  revert s d; induction k as [|k IH]; intros s d; simpl.
+  - now destruct d.
+  - destruct s as [|x s]; simpl.
+    + destruct (d <? S k); destruct d; reflexivity.
+    + destruct d; [reflexivity|]. cbn [nth_error]. rewrite IH. reflexivity.
+Qed.
+
+Lemma compat_nth t x d :
+  compat t x = true -> d < length t -> d < length x -> nth_error x d = nth_error t d.
+Proof.
+  revert x d; induction t as [|a t IH]; intros [|b x] d H Lt Lx; simpl in *; try lia.
+  apply andb_true_iff in H. destruct H as [E H]. apply N.eqb_eq in E. subst b.
+  destruct d; simpl; [reflexivity | apply IH; [exact H | lia | lia]].
+Qed.
+
+Lemma str_eqb_prefixb_firstn r s :
+  length r <= length s -> str_eqb (firstn (length r) s) r = prefixb r s.
+Proof.
+  intros L. destruct (prefixb r s) eqn:E.
+  - apply prefixb_firstn in E. rewrite E. apply str_eqb_refl.
+  - destruct (str_eqb_spec (firstn (length r) s) r) as [H|H]; [|reflexivity].
+    apply prefixb_firstn in H. congruence.
+Qed.
+
+Lemma slice_suffix {A} (s : list A) start end_ i :
+  i <= end_ - start ->
+  slice s (start + (end_ - start - i)) end_ = skipn (end_ - start - i) (slice s start end_).
+Proof.
+  intros Hi. unfold slice. set (L := end_ - start). set (a := L - i).
+  transitivity (skipn a (firstn (a + (L - a)) (skipn start s))).
+  - rewrite <- firstn_skipn_comm. rewrite skipn_skipn. f_equal. unfold a, L. lia.
+  - f_equal. f_equal. unfold a, L. lia.
+Qed.
+
